@@ -84,6 +84,7 @@ func (s specState) answer(k string, t int64) bool {
 }
 
 type revObs struct {
+	Leak    string // a list that was not operated on changed (which one, what it holds now)
 	Nil     bool
 	Final   []kv
 	Deleted [][]kv
@@ -141,6 +142,31 @@ type revTarget interface {
 	revs() jwt.RevocationList
 	isRevoked(k string, t int64) bool
 	claimRevoked(present bool, sub string, iat int64) bool
+	bystanders() map[string]jwt.RevocationList // the other revocation lists of the same account, by name
+}
+
+// the lists a history is not applied to: the exports "y.quiet" (no revocations) and "z.busy" (one entry of its own), and,
+// for an export target, the account's own list
+func addBystanders(ac *jwt.AccountClaims) {
+	ac.Exports.Add(&jwt.Export{Subject: "y.quiet", Type: jwt.Stream}, &jwt.Export{Subject: "y.silent", Type: jwt.Service})
+	busy := &jwt.Export{Subject: "z.busy", Type: jwt.Stream}
+	busy.RevokeAt("zz", time.Unix(9, 0))
+	ac.Exports.Add(busy)
+}
+func exportBystanders(ac *jwt.AccountClaims, skip string) map[string]jwt.RevocationList {
+	out := map[string]jwt.RevocationList{}
+	for _, e := range ac.Exports {
+		if e != nil && string(e.Subject) != skip {
+			out["export "+string(e.Subject)] = e.Revocations
+		}
+	}
+	return out
+}
+func (a *acctTarget) bystanders() map[string]jwt.RevocationList { return exportBystanders(a.ac, "") }
+func (e *expTarget) bystanders() map[string]jwt.RevocationList {
+	out := exportBystanders(e.ac, "x.y")
+	out["the account's own list"] = e.ac.Revocations
+	return out
 }
 
 type acctTarget struct {
@@ -276,6 +302,15 @@ func observe(t revTarget, ops []rop) *revObs {
 	}
 	o.Nil = t.revs() == nil
 	o.Final = sortedEntries(t.revs())
+	for name, l := range t.bystanders() {
+		want := "[]"
+		if name == "export z.busy" {
+			want = fmt.Sprint([]kv{{"zz", 9}})
+		}
+		if got := fmt.Sprint(sortedEntries(l)); got != want && o.Leak == "" {
+			o.Leak = name + " now holds " + got
+		}
+	}
 	for _, k := range c09Keys {
 		for _, tt := range c09Times {
 			o.Queries = append(o.Queries, struct {
@@ -310,10 +345,15 @@ func runC09(c *Ctx) {
 	w := c.newCaseWriter("rev", "From JWT Require Import Model.Revocation.\nOpen Scope Z_scope.", "rcase", "rcase_ok")
 	akp, _ := nkeys.CreateAccount()
 	apub, _ := akp.PublicKey()
-	newAcct := func() *acctTarget { return &acctTarget{ac: jwt.NewAccountClaims(apub), kp: akp} }
+	newAcct := func() *acctTarget {
+		ac := jwt.NewAccountClaims(apub)
+		addBystanders(ac)
+		return &acctTarget{ac: ac, kp: akp}
+	}
 	newExp := func() *expTarget {
 		ac := jwt.NewAccountClaims(apub)
-		ac.Exports.Add(&jwt.Export{Subject: "x.y", Type: jwt.Stream})
+		ac.Exports.Add(&jwt.Export{Subject: "x.y", Type: jwt.Stream}) // (sorts first: Encode orders exports by subject)
+		addBystanders(ac)
 		return &expTarget{ac: ac, kp: akp}
 	}
 	var alphabet []rop
@@ -369,6 +409,13 @@ func runC09(c *Ctx) {
 		}
 		chk(oa, "account")
 		chk(oe, "export")
+		for who, o := range map[string]*revObs{"account": oa, "export": oe} {
+			c.sum.ImplChecks++
+			if o.Leak != "" {
+				c.violation("C09: a history applied to one revocation list changed another list of the same account: "+o.Leak,
+					map[string]interface{}{"history": ops, "target": who, "changed": o.Leak})
+			}
+		}
 		// compaction returns precisely the covered entries: replay the spec step by step
 		sp2 := specState{}
 		ci := 0
